@@ -4,13 +4,13 @@ C08 — the state held by a value or map downlink equals the fold of what it rec
 Quantifier: every notification sequence of the grammar `linked ev* synced ev* unlinked (relink ..)` (`phaseRun`,
 `vRunG`), both settings of `events_when_not_synced` (`c.ews`) and `terminate_on_unlinked` (`c.tou`), both
 implementations (`MClient`/`VClient` = `swimos_downlink::task`, `MHosted`/`VHosted` = `swimos_agent` hosted downlinks;
-`Model/DownlinkTask.lean`, the code as it is). The fold is `specRun` (`applyMsg`: update, remove, clear, take, drop applied in
+`Model/DownlinkTask.lean`, the code as it is — after the repairs of F5 (`clear` while callbacks are suppressed) and F5b
+(`take` / `drop` ignoring `dispatch`)). The fold is `specRun` (`applyMsg`: update, remove, clear, take, drop applied in
 order on a finite map) resp. `vSpecRun` (last value received since `linked`).
 
-`Restr` names the two restrictions under which the *client* statements are claimed:
-  `noSuppClear` excludes F5 (a `clear` received while callbacks are suppressed is not applied by the client), and
-  `noTakeDrop` restricts callback-shape claims to update / remove / clear (take / drop callbacks differ by implementation).
-The unrestricted statements are kept as `def`s with `_fails` witnesses.
+`Restr.noTakeDrop` restricts the *callback-trace* claims to update / remove / clear; for take / drop the callbacks are
+characterised separately (`C08_*take_drop*`). The only statement kept as a `def` with a `_fails` witness is F6 (the client
+folds its own writes into its replica).
 -/
 import SwimVerif.Proofs.DownlinkTask
 
@@ -18,12 +18,9 @@ set_option linter.unusedVariables false
 namespace SwimVerif.Dl
 
 /-- every sequence of the grammar -/
-def legalAll : Restr := { noSuppClear := false, noTakeDrop := false }
+def legalAll : Restr := { noTakeDrop := false }
 /-- only update / remove / clear events -/
-def legalBasic : Restr := { noSuppClear := false, noTakeDrop := true }
-/-- no `clear` while callbacks are suppressed -/
-def legalNoSuppClear : Restr := { noSuppClear := true, noTakeDrop := false }
-def legalBasicNoSuppClear : Restr := { noSuppClear := true, noTakeDrop := true }
+def legalBasic : Restr := { noTakeDrop := true }
 
 /-! ### association lists are finite maps (what "fold" means) -/
 
@@ -52,55 +49,27 @@ example : phaseRun legalBasic ⟨false, false⟩ .U
     [.linked, .ev (.update 1 10), .ev .clear, .ev (.update 2 5), .synced, .ev (.remove 2), .unlinked, .linked]
     = some .L := by decide
 
-/-- The full statement for the client: every legal sequence, all five messages, both settings. -/
-def C08_client_state_is_fold : Prop :=
-  ∀ (c : Cfg) (ns : List Note) (p : Phase), phaseRun legalAll c .U ns = some p → p ≠ .E →
-    (MClient.run c {} (notes ns)).1.st.replica = specRun none ns
-
-/-- F5: with the default configuration `linked, update 1→10, clear, synced` leaves `{1:10}` in the client. -/
-theorem C08_client_state_is_fold_fails : ¬ C08_client_state_is_fold := by
-  intro h
-  have := h ⟨false, true⟩ [.linked, .ev (.update 1 10), .ev .clear, .synced] .S (by decide) (by decide)
-  revert this
-  decide
-
-/-- **Client map downlink, both settings, all five messages:** the replica is the fold, provided no `clear` arrives
-while callbacks are suppressed (always true with `events_when_not_synced`). -/
-theorem C08_client_state_is_fold_partial (c : Cfg) (ns : List Note) (p : Phase)
-    (h : phaseRun legalNoSuppClear c .U ns = some p) (hE : p ≠ .E) :
+/-- **Client map downlink, both settings, all five messages:** after every legal sequence the replica is the fold of
+the notifications received since it linked (`State::Unlinked` when not linked). -/
+theorem C08_client_state_is_fold (c : Cfg) (ns : List Note) (p : Phase)
+    (h : phaseRun legalAll c .U ns = some p) (hE : p ≠ .E) :
     (MClient.run c {} (notes ns)).1.st.replica = specRun none ns := by
-  have hrel := relC_run (R := legalNoSuppClear) rfl c ns relC_init h
+  have hrel := relC_run_all (R := legalAll) c ns relC_init sortedK_nil h
   cases p with
   | U => obtain ⟨hs, hsp⟩ := hrel; rw [hs, hsp]; rfl
   | L => obtain ⟨m, hs, hsp⟩ := hrel; rw [hs, hsp]; rfl
   | S => obtain ⟨m, hs, hsp⟩ := hrel; rw [hs, hsp]; rfl
   | E => exact absurd rfl hE
 
-example : phaseRun legalNoSuppClear ⟨false, false⟩ .U
-    [.linked, .ev (.update 1 10), .ev (.update 2 5), .ev (.take 1), .synced, .ev .clear, .ev (.drop 2), .unlinked, .linked]
-    = some .L := by decide
-example : phaseRun legalNoSuppClear ⟨true, true⟩ .U [.linked, .ev (.update 1 10), .ev .clear, .synced, .unlinked]
-    = some .E := by decide
+example : phaseRun legalAll ⟨false, false⟩ .U
+    [.linked, .ev (.update 1 10), .ev .clear, .ev (.update 2 5), .ev (.update 3 5), .ev (.take 1), .synced, .ev .clear,
+     .ev (.drop 2), .unlinked, .linked] = some .L := by decide
 
-/-- With `events_when_not_synced` the restriction is vacuous: the client statement holds on every legal sequence. -/
-theorem C08_client_state_is_fold_ews (tou : Bool) (ns : List Note) (p : Phase)
-    (h : phaseRun legalAll ⟨true, tou⟩ .U ns = some p) (hE : p ≠ .E) :
-    (MClient.run ⟨true, tou⟩ {} (notes ns)).1.st.replica = specRun none ns := by
-  have key : ∀ (q : Phase) (n : Note), phaseStep legalNoSuppClear ⟨true, tou⟩ q n = phaseStep legalAll ⟨true, tou⟩ q n := by
-    intro q n
-    cases q <;> cases n <;> simp [phaseStep, evOk, legalNoSuppClear, legalAll]
-  have run : ∀ (ns : List Note) (q : Phase),
-      phaseRun legalNoSuppClear ⟨true, tou⟩ q ns = phaseRun legalAll ⟨true, tou⟩ q ns := by
-    intro ns
-    induction ns with
-    | nil => intro q; rfl
-    | cons n r ih =>
-      intro q
-      simp only [phaseRun, key]
-      cases phaseStep legalAll ⟨true, tou⟩ q n with
-      | none => rfl
-      | some q' => exact ih q'
-  exact C08_client_state_is_fold_partial ⟨true, tou⟩ ns p (by rw [run]; exact h) hE
+/-- Regression of F5 (was `C08_client_state_is_fold_fails`): with the default configuration
+`linked, update 1→10, clear, synced` now reports the empty map. -/
+theorem C08_client_clear_while_suppressed_is_applied :
+    (MClient.run ⟨false, true⟩ {} (notes [.linked, .ev (.update 1 10), .ev .clear, .synced])).2
+      = [[.linked], [], [], [.syncedM []]] := by decide
 
 /-! ### callbacks: notification order, true old / new values -/
 
@@ -112,11 +81,11 @@ theorem C08_hosted_callbacks_in_order_with_true_old_new (c : Cfg) (ns : List Not
     (MHosted.run c {} (notes ns)).2 = specTrace legalBasic c .U none ns :=
   traceH_run (R := legalBasic) rfl c ns relH_init h
 
-/-- **Callbacks (client)**, under the F5 restriction. -/
-theorem C08_client_callbacks_in_order_with_true_old_new_partial (c : Cfg) (ns : List Note) (p : Phase)
-    (h : phaseRun legalBasicNoSuppClear c .U ns = some p) :
-    (MClient.run c {} (notes ns)).2 = specTrace legalBasicNoSuppClear c .U none ns :=
-  traceC_run (R := legalBasicNoSuppClear) rfl rfl c ns relC_init h
+/-- **Callbacks (client):** the same trace. -/
+theorem C08_client_callbacks_in_order_with_true_old_new (c : Cfg) (ns : List Note) (p : Phase)
+    (h : phaseRun legalBasic c .U ns = some p) :
+    (MClient.run c {} (notes ns)).2 = specTrace legalBasic c .U none ns :=
+  traceC_run (R := legalBasic) rfl c ns relC_init h
 
 example : specTrace legalBasic ⟨false, false⟩ .U none
       [.linked, .ev (.update 1 10), .synced, .ev (.update 1 11), .ev (.remove 1), .ev (.remove 1)]
@@ -124,30 +93,17 @@ example : specTrace legalBasic ⟨false, false⟩ .U none
 
 /-! ### client = hosted -/
 
-/-- The full statement: on every legal sequence of update / remove / clear the two implementations produce the same
-callback trace and hold the same replica. -/
-def C08_client_eq_hosted : Prop :=
-  ∀ (c : Cfg) (ns : List Note) (p : Phase), phaseRun legalBasic c .U ns = some p →
-    (MClient.run c {} (notes ns)).2 = (MHosted.run c {} (notes ns)).2
-
-/-- F5 seen from outside: `on_synced {1:10}` (client) vs `on_synced {}` (hosted). -/
-theorem C08_client_eq_hosted_fails : ¬ C08_client_eq_hosted := by
-  intro h
-  have := h ⟨false, true⟩ [.linked, .ev (.update 1 10), .ev .clear, .synced] .S (by decide)
-  revert this
-  decide
-
-/-- **client = hosted** on legal sequences (update / remove / clear), both settings, outside F5: same callback trace,
-same replica. -/
-theorem C08_client_eq_hosted_partial (c : Cfg) (ns : List Note) (p : Phase)
-    (h : phaseRun legalBasicNoSuppClear c .U ns = some p) :
+/-- **client = hosted** on every legal sequence of update / remove / clear, both settings: same callback trace, same
+replica. -/
+theorem C08_client_eq_hosted (c : Cfg) (ns : List Note) (p : Phase)
+    (h : phaseRun legalBasic c .U ns = some p) :
     (MClient.run c {} (notes ns)).2 = (MHosted.run c {} (notes ns)).2 ∧
     (p ≠ .E → (MClient.run c {} (notes ns)).1.st.replica.getD [] = (MHosted.run c {} (notes ns)).1.map) := by
-  have hc := traceC_run (R := legalBasicNoSuppClear) rfl rfl c ns relC_init h
-  have hh := traceH_run (R := legalBasicNoSuppClear) rfl c ns relH_init h
+  have hc := traceC_run (R := legalBasic) rfl c ns relC_init h
+  have hh := traceH_run (R := legalBasic) rfl c ns relH_init h
   refine ⟨hc.trans hh.symm, ?_⟩
-  have rc := relC_run (R := legalBasicNoSuppClear) rfl c ns relC_init h
-  have rh := relH_run (R := legalBasicNoSuppClear) rfl c ns relH_init h
+  have rc := relC_run (R := legalBasic) rfl c ns relC_init h
+  have rh := relH_run (R := legalBasic) rfl c ns relH_init h
   intro hE
   cases p with
   | U => obtain ⟨hs, _⟩ := rc; obtain ⟨hs', _⟩ := rh; rw [hs, hs']; rfl
@@ -155,9 +111,21 @@ theorem C08_client_eq_hosted_partial (c : Cfg) (ns : List Note) (p : Phase)
   | S => obtain ⟨m, hs, hsp⟩ := rc; obtain ⟨_, _, hsp'⟩ := rh; rw [hs]; rw [hsp] at hsp'; simpa [CSt.replica] using hsp'
   | E => exact absurd rfl hE
 
-example : phaseRun legalBasicNoSuppClear ⟨false, false⟩ .U
-    [.linked, .ev (.update 1 10), .ev (.remove 1), .synced, .ev .clear, .ev (.update 3 1), .unlinked, .linked,
+example : phaseRun legalBasic ⟨false, false⟩ .U
+    [.linked, .ev (.update 1 10), .ev .clear, .ev (.remove 1), .synced, .ev .clear, .ev (.update 3 1), .unlinked, .linked,
      .ev (.update 2 2), .synced] = some .S := by decide
+
+/-- **client replica = hosted replica, all five messages**, both settings, every legal sequence. -/
+theorem C08_client_eq_hosted_state_all_messages (c : Cfg) (ns : List Note) (p : Phase)
+    (h : phaseRun legalAll c .U ns = some p) (hE : p ≠ .E) :
+    (MClient.run c {} (notes ns)).1.st.replica.getD [] = (MHosted.run c {} (notes ns)).1.map := by
+  have rc := relC_run_all (R := legalAll) c ns relC_init sortedK_nil h
+  have rh := relH_run_all (R := legalAll) c ns relH_init sortedK_nil h
+  cases p with
+  | U => obtain ⟨hs, _⟩ := rc; obtain ⟨hs', _⟩ := rh; rw [hs, hs']; rfl
+  | L => obtain ⟨m, hs, hsp⟩ := rc; obtain ⟨_, _, hsp'⟩ := rh; rw [hs]; rw [hsp] at hsp'; simpa [CSt.replica] using hsp'
+  | S => obtain ⟨m, hs, hsp⟩ := rc; obtain ⟨_, _, hsp'⟩ := rh; rw [hs]; rw [hsp] at hsp'; simpa [CSt.replica] using hsp'
+  | E => exact absurd rfl hE
 
 /-! ### on_synced exactly once, with the state of that moment -/
 
@@ -172,27 +140,23 @@ theorem C08_hosted_on_synced_exactly_once_with_state_of_that_moment (c : Cfg) (p
   rw [hc]
   exact ⟨fun hn => by subst hn; rfl, fun hn m => specCbs_not_synced _ _ n hn m⟩
 
-/-- The full client statement (every legal prefix). -/
-def C08_client_on_synced_with_state_of_that_moment : Prop :=
-  ∀ (c : Cfg) (pre : List Note) (p : Phase), phaseRun legalAll c .U pre = some p → p = .L →
-    ((MClient.run c {} (notes pre)).1.step c (.note .synced)).2 = [.syncedM ((specRun none pre).getD [])]
-
-theorem C08_client_on_synced_with_state_of_that_moment_fails : ¬ C08_client_on_synced_with_state_of_that_moment := by
-  intro h
-  have := h ⟨false, true⟩ [.linked, .ev (.update 1 10), .ev .clear] .L (by decide) rfl
-  revert this
-  decide
-
-/-- **on_synced (client)**, under the F5 restriction. -/
-theorem C08_client_on_synced_exactly_once_with_state_of_that_moment_partial (c : Cfg) (pre : List Note) (n : Note)
-    (p p' : Phase) (h1 : phaseRun legalBasicNoSuppClear c .U pre = some p)
-    (h2 : phaseStep legalBasicNoSuppClear c p n = some p') :
+/-- **on_synced (client):** the same, update / remove / clear prefixes. -/
+theorem C08_client_on_synced_exactly_once_with_state_of_that_moment (c : Cfg) (pre : List Note) (n : Note)
+    (p p' : Phase) (h1 : phaseRun legalBasic c .U pre = some p) (h2 : phaseStep legalBasic c p n = some p') :
     (n = .synced → ((MClient.run c {} (notes pre)).1.step c (.note n)).2 = [.syncedM ((specRun none pre).getD [])]) ∧
     (n ≠ .synced → ∀ m, Cb.syncedM m ∉ ((MClient.run c {} (notes pre)).1.step c (.note n)).2) := by
-  have hrel := relC_run (R := legalBasicNoSuppClear) rfl c pre relC_init h1
-  have hc := cbsC_step (R := legalBasicNoSuppClear) rfl rfl c hrel h2
+  have hrel := relC_run (R := legalBasic) rfl c pre relC_init h1
+  have hc := cbsC_step (R := legalBasic) rfl c hrel h2
   rw [hc]
   exact ⟨fun hn => by subst hn; rfl, fun hn m => specCbs_not_synced _ _ n hn m⟩
+
+/-- **on_synced (client), all five messages:** a legal `synced` fires `on_synced` once with the fold of that moment. -/
+theorem C08_client_on_synced_with_state_of_that_moment (c : Cfg) (pre : List Note)
+    (h : phaseRun legalAll c .U pre = some .L) :
+    ((MClient.run c {} (notes pre)).1.step c (.note .synced)).2 = [.syncedM ((specRun none pre).getD [])] := by
+  obtain ⟨m, hs, hsp⟩ := relC_run_all (R := legalAll) c pre relC_init sortedK_nil h
+  rw [hs, hsp]
+  rfl
 
 /-! ### local writes -/
 
@@ -276,7 +240,7 @@ theorem C08_value_synced_without_value_differs :
     ((VClient.run ⟨false, false⟩ {} (vnotes [.linked, .synced])).1.fin,
      (VHosted.run ⟨false, false⟩ {} (vnotes [.linked, .synced])).1.fin) = (some .syncedNoValue, none) := by decide
 
-/-! ### take / drop (T2) -/
+/-! ### take / drop -/
 
 /-- **Hosted map downlink, all five messages:** removing the sorted key suffix / prefix one key at a time (what
 `MapDlState::take/drop` do with `drop_or_take`) is `take` / `drop` of the fold; so the replica is the fold on *every*
@@ -302,31 +266,6 @@ theorem C08_hosted_on_synced_with_state_of_that_moment_all_messages (c : Cfg) (p
   obtain ⟨_, hfin, hsp⟩ := relH_run_all (R := legalAll) c pre relH_init sortedK_nil h
   simp [MHosted.step, hNext, hfin, hsp]
 
-/-- **client replica = hosted replica, all five messages**, both settings, outside F5. -/
-theorem C08_client_eq_hosted_state_all_messages_partial (c : Cfg) (ns : List Note) (p : Phase)
-    (h : phaseRun legalNoSuppClear c .U ns = some p) (hE : p ≠ .E) :
-    (MClient.run c {} (notes ns)).1.st.replica.getD [] = (MHosted.run c {} (notes ns)).1.map := by
-  have rc := relC_run (R := legalNoSuppClear) rfl c ns relC_init h
-  have rh := relH_run_all (R := legalNoSuppClear) c ns relH_init sortedK_nil h
-  cases p with
-  | U => obtain ⟨hs, _⟩ := rc; obtain ⟨hs', _⟩ := rh; rw [hs, hs']; rfl
-  | L => obtain ⟨m, hs, hsp⟩ := rc; obtain ⟨_, _, hsp'⟩ := rh; rw [hs]; rw [hsp] at hsp'; simpa [CSt.replica] using hsp'
-  | S => obtain ⟨m, hs, hsp⟩ := rc; obtain ⟨_, _, hsp'⟩ := rh; rw [hs]; rw [hsp] at hsp'; simpa [CSt.replica] using hsp'
-  | E => exact absurd rfl hE
-
-/-- The callback *shapes* of `take` / `drop` differ between the implementations (recorded as F5b): the client fires
-`on_remove` although callbacks are suppressed, and its `drop` shows `on_remove` the empty map. -/
-theorem C08_take_drop_callbacks_differ :
-    (MClient.run ⟨false, true⟩ {} (notes [.linked, .ev (.update 1 10), .ev (.update 2 20), .ev (.take 1)])).2
-      = [[.linked], [], [], [.remove 2 20 [(1, 10)]]] ∧
-    (MHosted.run ⟨false, true⟩ {} (notes [.linked, .ev (.update 1 10), .ev (.update 2 20), .ev (.take 1)])).2
-      = [[.linked], [], [], []] ∧
-    (MClient.run ⟨true, true⟩ {} (notes [.linked, .ev (.update 1 10), .ev (.update 2 20), .ev (.drop 1)])).2
-      = [[.linked], [.update 1 none 10 [(1, 10)]], [.update 2 none 20 [(1, 10), (2, 20)]], [.remove 1 10 []]] ∧
-    (MHosted.run ⟨true, true⟩ {} (notes [.linked, .ev (.update 1 10), .ev (.update 2 20), .ev (.drop 1)])).2
-      = [[.linked], [.update 1 none 10 [(1, 10)]], [.update 2 none 20 [(1, 10), (2, 20)]], [.remove 1 10 [(2, 20)]]] := by
-  decide
-
 /-- **take / drop callbacks (hosted):** on a key-sorted replica `take n` / `drop n` (`n < len`) fire one `on_remove` per
 removed entry, in key order, with the true removed value and the map after that removal (the monitor's reference shape). -/
 theorem C08_hosted_take_drop_callback_shape (m : AMap) (n : Nat) (hs : SortedK m) (hn : n < m.length) :
@@ -342,16 +281,28 @@ theorem C08_hosted_take_drop_callback_shape (m : AMap) (n : Nat) (hs : SortedK m
 
 example : SortedK [(1, 10), (2, 20), (3, 30)] := by simp [SortedK, keys]
 
-/-- The client's callbacks for `take` / `drop` agree with the hosted downlink's — false of the current code (F5b);
-provable once `fixes/F5b.patch` is applied and `cEvent` follows it. -/
-def C08_client_eq_hosted_take_drop_callbacks : Prop :=
-  ∀ (m : AMap) (e : Msg) (d : Bool), SortedK m → (match e with | .take _ => True | .drop n => n < m.length | _ => False) →
-    (cEvent m e d).2 = (hEvent m e d).2
+/-- **take / drop callbacks, client = hosted:** for `take n` (any `n`) and `drop n` with `n < len` the two implementations
+compute the same replica *and* the same callbacks (both respect `dispatch`). -/
+theorem C08_client_eq_hosted_take_drop_callbacks (m : AMap) (e : Msg) (d : Bool)
+    (h : match e with | .take _ => True | .drop n => n < m.length | _ => False) :
+    cEvent m e d = hEvent m e d := by
+  apply cEvent_eq_hEvent
+  cases e <;> simp_all
 
-theorem C08_client_eq_hosted_take_drop_callbacks_fails : ¬ C08_client_eq_hosted_take_drop_callbacks := by
-  intro h
-  have := h [(1, 10), (2, 20)] (.take 1) false (by simp [SortedK, keys]) trivial
-  revert this
+/-- The one remaining (benign, accepted by the monitor) difference in callback *shape*: `drop n` with `n ≥ len` is one
+`on_clear` in the hosted downlink (also on an empty map) and one `on_remove` per key in the client. -/
+theorem C08_drop_everything_callbacks_differ :
+    (cEvent [(1, 10), (2, 20)] (.drop 2) true).2 = [.remove 1 10 [(2, 20)], .remove 2 20 []] ∧
+    (hEvent [(1, 10), (2, 20)] (.drop 2) true).2 = [.clear [(1, 10), (2, 20)]] ∧
+    (cEvent [] (.drop 0) true).2 = [] ∧ (hEvent [] (.drop 0) true).2 = [.clear []] := by decide
+
+/-- Regression of F5b: `take` no longer fires `on_remove` while callbacks are suppressed, and `drop` shows `on_remove` the
+map after the removal. -/
+theorem C08_client_take_drop_respect_dispatch :
+    (MClient.run ⟨false, true⟩ {} (notes [.linked, .ev (.update 1 10), .ev (.update 2 20), .ev (.take 1), .synced])).2
+      = [[.linked], [], [], [], [.syncedM [(1, 10)]]] ∧
+    (MClient.run ⟨true, true⟩ {} (notes [.linked, .ev (.update 1 10), .ev (.update 2 20), .ev (.drop 1)])).2
+      = [[.linked], [.update 1 none 10 [(1, 10)]], [.update 2 none 20 [(1, 10), (2, 20)]], [.remove 1 10 [(2, 20)]]] := by
   decide
 
 end SwimVerif.Dl
